@@ -55,7 +55,7 @@ def fn_text(f, indent=""):
     if f["ret"] is not None:
         sig += " -> " + ty_text(f["ret"])
     lines.append(indent + sig + " {")
-    lines.append(indent + "    todo!()")
+    lines.append(indent + "    " + f.get("body", "todo!()"))
     lines.append(indent + "}")
     return "\n".join(lines)
 
@@ -161,17 +161,24 @@ def item_sx(it):
     return ["other"]
 
 
+def nm(name):
+    """Directory entry names are byte strings. In a case they are python strings in which a byte
+    that is not part of valid UTF-8 is a lone surrogate (os.fsdecode convention; json keeps it as
+    \\udcXX); the file system calls take such strings as they are, the model gets the bytes."""
+    return os.fsencode(name)
+
+
 def node_sx(n):
     if n["t"] == "d":
-        return ["d", n["name"], [node_sx(c) for c in n["ch"]]]
+        return ["d", nm(n["name"]), [node_sx(c) for c in n["ch"]]]
     if n["t"] == "l":
         if n["to"] == "file":
             c = ["parsed", [item_sx(i) for i in n["items"]]] if n["kind"] == "parsed" else [n["kind"]]
-            return ["l", n["name"], ["file", c]]
-        return ["l", n["name"], [n["to"]]]
+            return ["l", nm(n["name"]), ["file", c]]
+        return ["l", nm(n["name"]), [n["to"]]]
     if n["kind"] == "parsed":
-        return ["f", n["name"], ["parsed", [item_sx(i) for i in n["items"]]]]
-    return ["f", n["name"], [n["kind"]]]
+        return ["f", nm(n["name"]), ["parsed", [item_sx(i) for i in n["items"]]]]
+    return ["f", nm(n["name"]), [n["kind"]]]
 
 
 def tree_sx(tree):
@@ -258,6 +265,14 @@ RS_NAMES = ["main.rs", "lib.rs", "mod.rs", "commands.rs", "a.rs", "b.rs", "user.
             "..rs", "c.rs", "d.rs", "e.rs"]
 NON_RS_NAMES = ["x.rs.bak", "notes.txt", "lib.rs~", "Cargo.toml", ".rs", "U.RS", "a.rsx", "rs", "mod.rs.orig", "a.Rs",
                 "README", "a.rs.", "ars"]
+# unusual but legal entry names: valid non-ASCII UTF-8, spaces, dots, leading dashes, shell and template
+# characters, and names that are NOT valid UTF-8 (\udcXX = the byte XX, see nm)
+ODD_DIR_NAMES = ["caf\u00e9", "\u65e5\u672c", "my dir", " lead", "-p", "--force", "a.b", "...", ".hidden", "it's", "a\"b", "a\\b",
+                 "{{x}}", "#1", "m\udcfcll", "m\udcfcll", "\udcff\udcfe", "caf\udce9", "target\udce9", "\udce9target", "x\udcc3"]
+ODD_RS_NAMES = ["caf\u00e9.rs", "\u65e5\u672c.rs", "my file.rs", " .rs", "-x.rs", "--help.rs", "a..rs", "....rs", "it's.rs", "a\"b.rs",
+                "a\\b.rs", "{{x}}.rs", "%s.rs", "caf\udce9.rs", "caf\udce9.rs", "\udcff.rs", "b\udce4r.rs", "x\udcc3.rs", "\u00e9\udce9.rs",
+                "a.rs\udce9.rs"]
+ODD_NON_RS_NAMES = ["caf\u00e9.txt", "caf\udce9.rs.bak", "x.r\udce9s", "x.rs\udce9", "x.\udce9rs", "\udce9", "-rs", "my file.rs "]
 ROOTS_PLAIN = [["proj"], ["proj", "src"], ["app", "src-tauri", "src"], ["xtarget", "p"], ["targets"], ["x", "target.d", "p"],
                ["a", ".gitx", "p"], ["target"], [".git"], ["target", "debug"]]
 ROOTS_CLASS = [["x", "target", "proj"], ["w", ".git", "p", "src"], ["target", "debug"], ["target"], ["a", "b", ".git"]]
@@ -384,11 +399,12 @@ def gen_layout(rng, malformed=False, in_class_weight=0.12):
     while placed < nfiles and tries < 40:
         tries += 1
         depth = rng.choice([0, 0, 1, 1, 1, 2, 2, 3])
-        dirs = [rng.choice(DIR_NAMES) for _ in range(depth)]
+        odd = rng.random() < 0.3          # this file lives among unusual names
+        dirs = [rng.choice(ODD_DIR_NAMES) if odd and rng.random() < 0.6 else rng.choice(DIR_NAMES) for _ in range(depth)]
         if rng.random() < (0.5 if malformed else 0.72):
-            name = rng.choice(RS_NAMES)
+            name = rng.choice(ODD_RS_NAMES) if odd and rng.random() < 0.6 else rng.choice(RS_NAMES)
         else:
-            name = rng.choice(NON_RS_NAMES)
+            name = rng.choice(ODD_NON_RS_NAMES) if odd and rng.random() < 0.6 else rng.choice(NON_RS_NAMES)
         if insert(tree, dirs, gen_file(rng, name, malformed)):
             placed += 1
     if rng.random() < 0.15:
@@ -495,11 +511,31 @@ def ret_shape(f):
     return sorted(set(out))
 
 
+def name_shape(name):
+    b = os.fsencode(name)
+    out = []
+    try:
+        b.decode("utf-8")
+        if any(c >= 128 for c in b):
+            out.append("name:non_ascii_utf8")
+    except UnicodeDecodeError:
+        out.append("name:not_utf8")
+    if b" " in b:
+        out.append("name:space")
+    if b.startswith(b"-"):
+        out.append("name:leading_dash")
+    if any(c in b"'\"\\{}#%" for c in b):
+        out.append("name:shell_or_template_char")
+    return out
+
+
 def stats(case, acc):
     def walk(nodes, depth):
         for n in nodes:
+            for key in name_shape(n["name"]):
+                acc[key] = acc.get(key, 0) + 1
             if n["t"] == "d":
-                acc["dir:" + n["name"]] = acc.get("dir:" + n["name"], 0) + 1
+                acc["dir:" + ascii(n["name"])] = acc.get("dir:" + ascii(n["name"]), 0) + 1
                 walk(n["ch"], depth + 1)
             elif n["t"] == "l":
                 key = "link:" + n["to"] + (":" + n["where"] if "where" in n else "")
